@@ -76,7 +76,35 @@ def check_case(case, substep=1):
             if abs(dE) > tol:
                 bad.append(("insulated", "step %d: insulated tube changed sum r_i T_i by %.3e" % (n, dE)))
     bad += substep_chain(case, substep, prob, steps)
+    bad += solver_level(case, substep, prob, steps)
     return bad, thick
+
+
+def solver_level(case, substep, prob, steps):
+    """the user-level FiniteDifferenceImplicitThermalSolver, built with keyword options (diagnostics on), returns at
+    every stored time the field of the step-by-step chain the identities above were evaluated on: neither a
+    diagnostic flag nor the way options reach the problem object may change the physics (transient stays transient,
+    steady stays steady)"""
+    import contextlib, io
+    receiver, thermal, materials = tc.mods()
+    bad = []
+    tube, mat, fluid = tc.build(case)
+    T0fn = prob.T0 if case.T0field is not None else None
+    for verbose in (True, False):
+        solver = thermal.FiniteDifferenceImplicitThermalSolver(rtol=1e-13, atol=tc.auto_atol(case), miter=30, substep=substep,
+                                                               steady=case.steady, verbose=verbose)
+        with contextlib.redirect_stdout(io.StringIO()):
+            Tall = np.array(solver.solve(tube, mat, fluid, T0=T0fn))
+        for n in range(1, Tall.shape[0]):
+            manual = tc.real_view(case, np.array(steps[n * substep - 1]["T"]).reshape(prob.dim))
+            scale = float(np.max(np.abs(manual))) + 1.0
+            d = float(np.max(np.abs(Tall[n] - manual)))
+            if d > 1e-6 * scale:
+                bad.append(("solver-options", "FiniteDifferenceImplicitThermalSolver(steady=%s, verbose=%s, substep=%d).solve: stored time %d "
+                            "differs by %.4g from the chain of %s steps of the problem object" % (
+                                case.steady, verbose, substep, n, d, "steady" if case.steady else "transient")))
+                break
+    return bad
 
 
 def substep_chain(case, substep, prob, steps):
